@@ -272,6 +272,16 @@ def run(repo, chk):
     for q_ in ("probe.Probe.__init__", "probe.probing", "probe.global_probe"):
         chk.ob("R02.4", f"{q_}:raw-defaults-to-False", default_of(repo, q_, "raw") == "False", repo.func(q_).where,
                f"unless raw=True is asked for, events are the plain {{name: value}} dictionaries (default of `raw` in {q_}: {default_of(repo, q_, 'raw')})")
+    from .shared import variant_selection_obligations
+    variant_selection_obligations(repo, chk, "R02.6")
+    from ..pairing import contextvars_of, journal_findings
+    from ..callgraph import CallGraph
+    cg_ = CallGraph(repo)
+    for jq in ("probe.Probe._install_tooling", "overlay.autotool"):
+        jf = repo.func(jq)
+        for journal, res, site, ok_, detail in journal_findings(repo, jf, cg_, contextvars_of(repo)):
+            chk.ob("R02.6", f"{jq}:a-refused-activation-leaves-other-probes-instrumented[{journal}:{site}]", ok_, jf.where,
+                   f"when another probe's activation is refused, {jq} undoes exactly the tooling that had completed: the counts of functions that active probes share stay where they were, so those probes keep receiving their events" if ok_ else detail)
     # ---------------- R02.5
     bad = []
     n_ix = 0
